@@ -204,7 +204,13 @@ def _run_iface(case):
         explicit = ("has not been provided" in msg) or ("must define" in msg) or ("Cannot infer noise size" in msg) \
             or ("must all be specified" in msg)
         if not explicit or (isinstance(e, AttributeError) and case["variant"] not in MUST_RAISE):
-            raise
+            # the same functions solved fine through (f, g): an interface variant may be refused with the explicit
+            # "has not been provided" error, but it must not fail in some other way (e.g. a shape error because a derived
+            # method was wired to the wrong function)
+            return Result(nontrivial=True, checks=1, fail=Fail(
+                "interface_unexpected_error", f"variant {case['variant']} with {solve.combo_label(combo)} raised "
+                                              f"{type(e).__name__}: {str(e)[:160]} although the (f,g) interface solves",
+                sig))
         labels.append("outcome=explicit_error")
         return Result(nontrivial=True, labels=labels, checks=1)
     if reuse["bad"] is not None:
